@@ -80,5 +80,26 @@ func scenarios() []scenario {
 			return ""
 		},
 	})
+	// S5 (four rounds): validator 0 locks V0@0; in round 1 a polka for V1 forms that only validator 3 sees (it locks
+	// V1@1), validator 2 keeps valid V0@0 without a lock; in round 2 validator 2 re-proposes (V0, vr=0), validator 0
+	// prevotes it and RE-LOCKS the same value (its lock must now carry round 2), validator 2 decides V0 with a Byzantine
+	// precommit nobody else gets; validators 0 and 3 reach round 3, whose proposer 3 re-proposes (V1, vr=1). From here
+	// one late Byzantine prevote completes validator 0's knowledge of the round-1 polka: a lock whose round is stale lets
+	// it prevote V1 against its lock, and then V1 is decided next to V0.
+	out = append(out, scenario{
+		name: "S5 relock-same-value-then-older-polka-offered byz=1 R=3", powers: eq, byz: 1, R: 3,
+		script: []string{
+			"B v0.1:nil>2,3", "W v0.2:V0>3", "W v0.3:V0>2", "until:v2.step>=2", "L v0.3:V0>2", "until:round>=1",
+			"B P1.1:V1/-1>2,3", "B v1.1:V1>3", "until:round>=2",
+			"B v2.1:V0>0,2", "B c2.1:V0>2", "until:round>=3",
+		},
+		expect: func(c *cfg, g *gstate) string {
+			d, a, b := g.nd[c.slot[2]], sumOf(c, g, 0), sumOf(c, g, 3)
+			if !d.decided || d.decVal != 0 || a.lockedVal != 0 || a.round != 3 || b.lockedVal != 1 || b.lockedRound != 1 || b.round != 3 {
+				return fmt.Sprintf("decided=%v/%d v0=%+v v3=%+v", d.decided, d.decVal, a, b)
+			}
+			return ""
+		},
+	})
 	return out
 }
